@@ -198,6 +198,17 @@ def is_plain(label):
     return not (label.startswith('e:') or label.startswith('c:') or label.startswith('kw:') or label.startswith('m:'))
 
 
+def documented_name(fd, p):
+    """the keyword name the documentation promises: the explicit alias, else the convention translation of the
+    python parameter name (trailing underscores stripped, snake_case -> camelCase) - computed here, not read
+    from the definition"""
+    import gens.registry as greg
+    if greg.explicit_alias(fd, p):
+        return p.alias
+    n = p.name.rstrip('_')
+    return re.sub(r'(?!^)_(\w)', lambda m: m.group(1).upper(), n)
+
+
 def spellings(fd, vis, kwonly, choice):
     """choice: {param name -> (label, factory) or None (= use the default)} -> [(tag, receiver_index|None,
     [factory|NO_VALUE ...], {kw: factory})]"""
@@ -220,6 +231,12 @@ def spellings(fd, vis, kwonly, choice):
             while args and args[-1] is utils.NO_VALUE:
                 args.pop()
             out.append(('split@%d' % k, None, args, kw))
+        # all keywords under their documented names
+        kw = {documented_name(fd, p): choice[p.name][1] for p in kwonly if choice[p.name] is not None}
+        for i in range(last + 1):
+            if given[i]:
+                kw[documented_name(fd, vis[i])] = choice[vis[i].name][1]
+        out.append(('documented-names', None, [], kw))
     # defaults given explicitly (eager parameters): the value the parameter would get anyway
     expl = []
     for i in range(n):
